@@ -25,7 +25,9 @@ import (
 func sharedCache(res *mon.Result, idx int) {
 	r := mon.NewRng(mon.Seed(), 331, uint64(idx))
 	regex := r.Pick([]string{`^c03s\.(.*)$`, `c03s\.([a-z]+)`, `^c03s\.[a-c]+\.(.*)`})
-	outFmt := "c03out.$1"
+	// formats made only of group references expand to the empty string for some matching names ("c03s." with $1,
+	// every name with the non-existent $9): the decision is the filter's, whatever the output name turns out to be
+	outFmt := r.Pick([]string{"c03out.$1", "c03out.$1", "$1", "$9"})
 	variants := [][6]string{ // prefix notPrefix sub notSub regex notRegex
 		{"", "", "", "", regex, ""},
 		{"", "", "", "", regex, `canary`},
@@ -57,7 +59,7 @@ func sharedCache(res *mon.Result, idx int) {
 		f, _ := oracle.NewFilter(v[0], v[1], v[2], v[3], v[4], v[5])
 		aggs = append(aggs, one{ag, f, v})
 	}
-	names := []string{"c03s.a.x", "c03s.b.x", "c03s.canary1.load", "c03s.abc", "c03s.a.canary", "c03s.c.yx", "other.c03s.abc", "c03s.bb", "c03s.ab.x"}
+	names := []string{"c03s.a.x", "c03s.b.x", "c03s.canary1.load", "c03s.abc", "c03s.a.canary", "c03s.c.yx", "other.c03s.abc", "c03s.bb", "c03s.ab.x", "c03s.", "c03s.a."}
 	for round := 0; round < 3; round++ {
 		for _, ni := range r.Perm(len(names)) {
 			name := names[ni]
@@ -72,8 +74,8 @@ func sharedCache(res *mon.Result, idx int) {
 					for _, o := range aggs {
 						others = append(others, o.opt)
 					}
-					res.Violate("agg-shared-cache-decision", fmt.Sprintf("aggregations with the same regex and format (cache on): the one with options %v decided %v for %q, its own filter says %v (round %d)", a.opt, got, name, want, round),
-						map[string]interface{}{"aggregations(prefix,notPrefix,sub,notSub,regex,notRegex)": others, "name": name, "round": round})
+					res.Violate("agg-shared-cache-decision", fmt.Sprintf("aggregations with the same regex and format "+outFmt+" (cache on): the one with options %v decided %v for %q, its own filter says %v (round %d)", a.opt, got, name, want, round),
+						map[string]interface{}{"format": outFmt, "aggregations(prefix,notPrefix,sub,notSub,regex,notRegex)": others, "name": name, "round": round})
 					for _, o := range aggs {
 						go o.ag.Shutdown()
 					}
